@@ -115,7 +115,7 @@ class pLSCF(BaseAlgorithm[pLSCFRunParams, pLSCFResult, typing.Iterable[float]]):
             Fns,
             Xis,
             Phis,
-            ordmin,
+            max(ordmin - 1, 0),  # column k holds model order k + 1
             ordmax - 1,
             1,
             sc["err_fn"],
@@ -401,7 +401,7 @@ class pLSCF_MS(pLSCF[pLSCFRunParams, pLSCFResult, typing.Iterable[dict]]):
             Fns,
             Xis,
             Phis,
-            ordmin,
+            max(ordmin - 1, 0),  # column k holds model order k + 1
             ordmax - 1,
             1,
             sc["err_fn"],
